@@ -22,7 +22,9 @@ type udTgt struct {
 	pos  int
 }
 
-func (t udTgt) String() string { return fmt.Sprintf("%s(dir=%d,d=%d,a=%d)", t.name, t.dir, t.dist, t.amb) }
+func (t udTgt) String() string {
+	return fmt.Sprintf("%s(dir=%d,d=%d,a=%d)", t.name, t.dir, t.dist, t.amb)
+}
 
 var binNames = []string{"same", "up", "down", "side"}
 
